@@ -134,6 +134,33 @@ PROPS["C20"] = {
     "trusted": ["go-amino, encoding/json, time.Format"],
 }
 
+PROPS["C01"] = {
+    "lean_modules": ["Posmint.Props.C01"], "namespaces": ["Posmint.Props.C01"],
+    "required_theorems": ["Posmint.Props.C01." + t for t in ("readonly_step", "interleaved_traffic_state", "interleaved_traffic_outputs",
+                          "step_sameButCheckHeader", "restart_irrelevant", "restart_forgotten_at_commit", "canonMap_perm", "appHash_perm",
+                          "content_pruning_independent")],
+    "t1": [{"family": "chain", "model": "chain", "profile": "replica", "quick_n": 8000, "quick_shards": 2, "thorough_n": 300000,
+            "corpus": "chain-replica", "reset_token": "init", "group_token": "begin"},
+           {"family": "chain", "model": "chain", "profile": "replica-downtime", "quick_n": 3000, "thorough_n": 60000,
+            "corpus": "none", "reset_token": "init", "group_token": "begin"}] + RM_T1,
+    "t3": ["map_ranges"],
+    "rule": "two real application instances fed the same requests: the primary one (also compared with the Lean model after every operation) and "
+            "a replica with its own database and another pruning configuration (nothing / (2,3) / everything / (1,0)), which is closed and reopened "
+            "from its database after about every fourth Commit, does not see the primary's CheckTx / simulate requests and receives CheckTx / "
+            "simulate / store queries of its own; after every InitChain, BeginBlock, DeliverTx, EndBlock, Commit and keeper call the result code, "
+            "data, events, validator updates and app hash of the two are compared, and after every Commit the whole decoded state; genesis states "
+            "include exported ones (signing infos and missed-block arrays for up to 9 addresses); the multistore family adds a never-crashing shadow "
+            "store whose hashes must equal the primary's across crashes, replays and pruning options; non-trivial = distinct (operation kind, outcome) "
+            "with a distinct operation text",
+    "assumptions": ["both instances run in one process with the same binary: nondeterminism that needs different machines, Go versions or "
+                    "architectures (floating point, word size) is out of reach; map iteration order, the only in-process source, is randomised by "
+                    "the Go runtime on every loop and additionally audited statically (T3)",
+                    "Tendermint itself (block execution order, LastResultsHash) is outside the repository",
+                    "the static audit justifies each map loop by hand (expectations/map_ranges.notes.json); it detects new or changed loops, it does "
+                    "not prove the justification"],
+    "trusted": ["go/types with the compiler's export data (map-range audit)", "tm-db MemDB as the replica's database", "IAVL"],
+}
+
 PROPS["C19"] = {
     "lean_modules": ["Posmint.Props.C19"], "namespaces": ["Posmint.Props.C19"],
     "required_theorems": ["Posmint.Props.C19." + t for t in ("leaf_verify_iff", "sign_verifies", "verify_iff", "multisig_iff", "verify_key_unique",
@@ -164,6 +191,15 @@ PROPS["XCHAIN"] = {
 NOT_APPLICABLE = {}
 
 MANIFEST_TEXT = {
+    "C01": {"text": "In the Lean model an instance is a function of the request sequence, so agreement of instances is by construction; proved is that "
+                    "what must not matter does not: CheckTx / simulate traffic interleaved anywhere changes neither the state nor any "
+                    "consensus-relevant response; the only volatile state (the check-state header lost at a restart) influences no response and is "
+                    "forgotten at the next Commit; the app hash is the same for every iteration order of the store map; committed content and version "
+                    "are the same under every pruning configuration. Tied to the code by running two real instances (different DB, pruning, restarts, "
+                    "private traffic) in lockstep and comparing responses, app hashes and states, by the model correspondence, and by a typed audit of "
+                    "every loop over a Go map. Partial: cross-machine nondeterminism cannot be exhibited in one process. One defect found and repaired "
+                    "(map-ordered genesis writes changed the first app hash).",
+            "note": "runtime nondeterminism across machines is outside any model; map-loop justifications are by hand", "technique": "Lean 4 proof over executable model + two-instance differential run + regenerated structural audit"},
     "C19": {"text": "Lean theorems over key trees of any shape and depth: a (nested) multisignature key accepts exactly one signature per message - the "
                     "one in which every listed key signed in its own position - so dropped, duplicated, exchanged, re-nested or foreign components, "
                     "plain-for-multi and multi-for-plain signatures are all rejected; what verifies under one key verifies under no other key and for "
